@@ -5,6 +5,7 @@ from ..contracts import flux as CF, thermo, process as CP
 from ..symex import explore_thunk
 
 ID = "C09"
+FRAME_SENSITIVE = True        # the statement relates several calls / call histories: a certain write to state that outlives a call is a violation even where the engine cannot follow its effect
 MIN_OBLIGATIONS = 30
 KG = CF.KG
 PI = 'DiffusionCurve.__attrs_post_init__'
@@ -75,58 +76,62 @@ def obligations(cx):
             cx.ob("both-supplied.%s.%d.fluxes-kept" % (units.replace('/', '_'), i), [], blit(r.value.f['partial_fluxes'] is fl_any), kind='paths', function=PI)
     # ------------------------------------------------------------------ (2) curve from fluxes: inversion per mode + round trip with the solver's law
     yj = app('ysc', j)                       # self-consistent permeate mass fraction of point j (hypothesis of the statement)
-    for mode in C2.MODES:
-        Tp, pp = C2.mode_args(mode)
-        tag = "from-fluxes.%s" % mode
-        ycomp = Obj('Composition', dict(p=yj, type='weight'))
-        def law(i):
-            i = lift(i)
-            fcomp = Obj('Composition', dict(p=app('xf', i), type='weight'))
-            yc = Obj('Composition', dict(p=app('ysc', i), type='weight'))
-            return CF.F(mix, app('Pa', i), app('Pb', i), yc, fcomp, Tt, Tp, pp, 'NRTL')
-        # (a) inversion formula for arbitrary fluxes
-        ps = cx.explore(build(fc, fl_any, None, Tp, pp), contracts=ctr, pre=base)
-        rs = returns(ps)
-        cx.ob(tag + ".paths", [], blit(len(rs) >= 1), kind='paths', function=PI)
-        J1, J2 = app('J1', j), app('J2', j)
-        pf = thermo.gpp_apps(Tt, mix, fc.fn(j), 'NRTL')
-        yy = J1 / (J1 + J2)
-        for i, r in enumerate(rs):
-            qs, v = element(r, 'permeances')
-            cx.ob("%s.%d.element-paths" % (tag, i), [], blit(len(qs) >= 1), kind='paths', function=PI)
-            for qi, q in enumerate(qs):
-                pk = q.value
-                cx.ob("%s.%d.units.%d" % (tag, i, qi), [], blit(pk[0].f['units'] == KG and pk[1].f['units'] == KG), kind='paths', function=PI)
-        # (b) round trip: fluxes produced by the law at a self-consistent permeate  ->  the original permeances
-        fl_law = Seq(n, law, owner='external', tag=('law', mode))
-        Jl = law(j)
-        sc = eq(yj, Jl[0] / (Jl[0] + Jl[1]))
-        ps = cx.explore(build(fc, fl_law, None, Tp, pp), contracts=ctr, pre=base)
-        for i, r in enumerate(returns(ps)):
-            v = r.value.f['permeances']
-            qs = returns(explore_thunk(r.ex, lambda: r.ex.seq_get(v, j), list(r.pc) + hypj + [yj >= 0, yj <= 1, sc]))
-            # the self-consistency hypothesis y = J1/(J1+J2) is solved for the second permeance (no equality hypothesis left):
-            # Pb = J1 (1-y) / (y (p_feed2 - permeate side 2))
-            pfj = thermo.gpp_apps(Tt, mix, fc.fn(j), 'NRTL')
-            side = CF.permeate_side(mix, ycomp, Tp, pp, 'NRTL')
-            Pb_sc = (Jl[0] * (1 - yj)) / (yj * (pfj[1] - side[1]))
-            el = {('#', Pb.id): Pb_sc}
-            for qi, q in enumerate(qs):
-                pk = q.value
-                name = "%s.%d.round-trip.%d" % (tag, i, qi)
-                hy = [subst(h, el) for h in q.pc if h is not sc] + [yj > 0, yj < 1, ne(pfj[1] - side[1], 0), Pb_sc >= 0]
-                cx.ob(name, hy, band(eq(subst(pk[0].f['value'], el), Pa), eq(subst(pk[1].f['value'], el), Pb_sc)), function=PI,
-                      statement="a curve built from fluxes computed for given permeances under this permeate condition reports those permeances back",
-                      ranges={'Pa': (1e-3, 1e-1), 'pp1': (5.0, 50.0), 'pp2': (5.0, 50.0), 'pp': (0.5, 3.0), 'ysc': (0.2, 0.8), 'xf': (0.1, 0.9), 'M1': (18.0, 20.0), 'M2': (40.0, 50.0)})
-                if mode == 'pressure':
-                    # fingerprint of known finding K2: the curve subtracts p x MOLE fraction of the permeate, the solver p x MASS fraction
-                    ym = (yj / M1) / (yj / M1 + (1 - yj) / M2)
-                    J1s, J2s = subst(Jl[0], el), subst(Jl[1], el)
-                    w1 = J1s / (pfj[0] - PP * ym); w2 = J2s / (pfj[1] - PP * (1 - ym))
-                    def unclamp(t):          # the Permeance constructor clamps at 0: `v if v >= 0 else 0`; the fingerprint speaks about v
-                        return t.a[1] if t.op == 'ite' and isc(t.a[2], 0) else t
-                    cx.ob("%s.%d.fingerprint.K2.%d" % (tag, i, qi), hy, band(eq(unclamp(subst(pk[0].f['value'], el)), w1), eq(unclamp(subst(pk[1].f['value'], el)), w2)), kind='fingerprint', finding='K2', function=PI,
-                          statement="the curve inverts with p x mole fraction of the permeate (the solver uses p x mass fraction)")
+    fc_weight = fc
+    for ftyp in ('weight', 'molar'):          # feed compositions of the curve in mass or in mole fractions
+      fc = comps(ftyp) if ftyp != 'weight' else fc_weight
+      for mode in C2.MODES:
+          Tp, pp = C2.mode_args(mode)
+          tag = "from-fluxes.%s%s" % (mode, "" if ftyp == "weight" else ".molar-feed")
+          ycomp = Obj('Composition', dict(p=yj, type='weight'))
+          def law(i):
+              i = lift(i)
+              fcomp = Obj('Composition', dict(p=app('xf', i), type=ftyp))
+              yc = Obj('Composition', dict(p=app('ysc', i), type='weight'))
+              return CF.F(mix, app('Pa', i), app('Pb', i), yc, fcomp, Tt, Tp, pp, 'NRTL')
+          # (a) inversion formula for arbitrary fluxes
+          ps = cx.explore(build(fc, fl_any, None, Tp, pp), contracts=ctr, pre=base)
+          rs = returns(ps)
+          cx.ob(tag + ".paths", [], blit(len(rs) >= 1), kind='paths', function=PI)
+          J1, J2 = app('J1', j), app('J2', j)
+          pf = thermo.gpp_apps(Tt, mix, fc.fn(j), 'NRTL')
+          yy = J1 / (J1 + J2)
+          for i, r in enumerate(rs):
+              qs, v = element(r, 'permeances')
+              cx.ob("%s.%d.element-paths" % (tag, i), [], blit(len(qs) >= 1), kind='paths', function=PI)
+              for qi, q in enumerate(qs):
+                  pk = q.value
+                  cx.ob("%s.%d.units.%d" % (tag, i, qi), [], blit(pk[0].f['units'] == KG and pk[1].f['units'] == KG), kind='paths', function=PI)
+          # (b) round trip: fluxes produced by the law at a self-consistent permeate  ->  the original permeances
+          fl_law = Seq(n, law, owner='external', tag=('law', mode, ftyp))
+          Jl = law(j)
+          sc = eq(yj, Jl[0] / (Jl[0] + Jl[1]))
+          ps = cx.explore(build(fc, fl_law, None, Tp, pp), contracts=ctr, pre=base)
+          for i, r in enumerate(returns(ps)):
+              v = r.value.f['permeances']
+              qs = returns(explore_thunk(r.ex, lambda: r.ex.seq_get(v, j), list(r.pc) + hypj + [yj >= 0, yj <= 1, sc]))
+              # the self-consistency hypothesis y = J1/(J1+J2) is solved for the second permeance (no equality hypothesis left):
+              # Pb = J1 (1-y) / (y (p_feed2 - permeate side 2))
+              pfj = thermo.gpp_apps(Tt, mix, fc.fn(j), 'NRTL')
+              side = CF.permeate_side(mix, ycomp, Tp, pp, 'NRTL')
+              Pb_sc = (Jl[0] * (1 - yj)) / (yj * (pfj[1] - side[1]))
+              el = {('#', Pb.id): Pb_sc}
+              for qi, q in enumerate(qs):
+                  pk = q.value
+                  name = "%s.%d.round-trip.%d" % (tag, i, qi)
+                  hy = [subst(h, el) for h in q.pc if h is not sc] + [yj > 0, yj < 1, ne(pfj[1] - side[1], 0), Pb_sc >= 0]
+                  cx.ob(name, hy, band(eq(subst(pk[0].f['value'], el), Pa), eq(subst(pk[1].f['value'], el), Pb_sc)), function=PI,
+                        statement="a curve built from fluxes computed for given permeances under this permeate condition reports those permeances back",
+                        ranges={'Pa': (1e-3, 1e-1), 'pp1': (5.0, 50.0), 'pp2': (5.0, 50.0), 'pp': (0.5, 3.0), 'ysc': (0.2, 0.8), 'xf': (0.1, 0.9), 'M1': (18.0, 20.0), 'M2': (40.0, 50.0)})
+                  if mode == 'pressure':
+                      # fingerprint of known finding K2: the curve subtracts p x MOLE fraction of the permeate, the solver p x MASS fraction
+                      ym = (yj / M1) / (yj / M1 + (1 - yj) / M2)
+                      J1s, J2s = subst(Jl[0], el), subst(Jl[1], el)
+                      w1 = J1s / (pfj[0] - PP * ym); w2 = J2s / (pfj[1] - PP * (1 - ym))
+                      def unclamp(t):          # the Permeance constructor clamps at 0: `v if v >= 0 else 0`; the fingerprint speaks about v
+                          return t.a[1] if t.op == 'ite' and isc(t.a[2], 0) else t
+                      cx.ob("%s.%d.fingerprint.K2.%d" % (tag, i, qi), hy, band(eq(unclamp(subst(pk[0].f['value'], el)), w1), eq(unclamp(subst(pk[1].f['value'], el)), w2)), kind='fingerprint', finding='K2', function=PI,
+                            statement="the curve inverts with p x mole fraction of the permeate (the solver uses p x mass fraction)")
+    fc = fc_weight
     # ------------------------------------------------------------------ curve from permeances, fluxes re-inverted in vacuum: original permeances
     fl_vac = Seq(n, lambda i: (lambda pfi: (app('Pa', lift(i)) * pfi[0], app('Pb', lift(i)) * pfi[1]))(thermo.gpp_apps(Tt, mix, fc.fn(lift(i)), 'NRTL')), owner='external', tag=('vac',))
     ps = cx.explore(build(fc, fl_vac, None), contracts=ctr, pre=base)
@@ -138,6 +143,8 @@ def obligations(cx):
                   statement="fluxes of a permeance-built curve (permeance x feed pressure) re-inverted in vacuum return the original permeances")
     cx.assume_note("hypotheses of the statement: the permeate composition at which the fluxes were computed is self-consistent (y = J1/(J1+J2)); permeances >= 0; driving forces non-zero (division definedness)")
     cx.assume_note("DiffusionCurve evaluates partial pressures with the default activity model (NRTL); get_partial_pressures by contract")
+    cx.no_hidden_state(function='DiffusionCurve.__attrs_post_init__')
+
 
 
 def replay_case(r):
